@@ -174,7 +174,15 @@ func ProjectNum(f *big.Float) J {
 			return J{"n": int(n), "d": int(d)}
 		}
 	}
-	return J{"dec": r.RatString()}
+	d := J{"dec": r.RatString()}
+	// flags the specification cannot derive from the text: whole number, exactly a float64
+	if f.IsInt() {
+		d["w"] = true
+	}
+	if _, acc := f.Float64(); acc == big.Exact {
+		d["f"] = true
+	}
+	return d
 }
 
 // runes lists the code points of s; code points that have a multi-letter abstract
